@@ -44,3 +44,75 @@ package proto
 //@ func IsChannelData
 //@   pure
 //@   ensures [C11:agree] res == (len(buf) >= 4 && validChan(be16(buf, 0)) && be16(buf, 2) <= len(buf) - 4)
+
+//@ func (*ChannelData).grow
+//@   requires 0 <= v && v <= 65536
+//@   ensures len(c.Raw) == old(len(c.Raw)) + v
+//@   ensures forall i :: 0 <= i && i < old(len(c.Raw)) ==> c.Raw[i] == old(c.Raw[i])
+//@   ensures (base(c.Raw) == old(base(c.Raw)) && off(c.Raw) == old(off(c.Raw))) || fresh(base(c.Raw))
+//@   ensures forall j :: (j < old(off(c.Raw) + len(c.Raw)) || j >= old(off(c.Raw) + len(c.Raw)) + v) ==> rawbyte(old(c.Raw), j) == old(rawbyte(c.Raw, j))
+//@   assigns c.Raw, bytes(c.Raw)
+//@   loop 0 invariant len(c.Raw) >= old(len(c.Raw)) && len(c.Raw) <= n && n == old(len(c.Raw)) + v
+//@   loop 0 invariant forall i :: 0 <= i && i < old(len(c.Raw)) ==> c.Raw[i] == old(c.Raw[i])
+//@   loop 0 invariant (base(c.Raw) == old(base(c.Raw)) && off(c.Raw) == old(off(c.Raw))) || base(c.Raw) >= old(allocTop)
+//@   loop 0 invariant forall j :: (j < old(off(c.Raw) + len(c.Raw)) || j >= old(off(c.Raw) + len(c.Raw)) + v) ==> rawbyte(old(c.Raw), j) == old(rawbyte(c.Raw, j))
+//@   loop 0 decreases n - len(c.Raw)
+
+//@ func (*ChannelData).WriteHeader
+//@   requires len(c.Raw) <= 65536
+//@   ensures [C11:hdr] len(c.Raw) >= 4 && be16(c.Raw, 0) == int(c.Number) && be16(c.Raw, 2) == len(c.Data) % 65536
+//@   ensures [C11:hdr-len] len(c.Raw) == (old(len(c.Raw)) < 4 ? old(len(c.Raw)) + 4 : old(len(c.Raw)))
+//@   ensures [C11:hdr-keep] forall i :: 4 <= i && i < old(len(c.Raw)) ==> c.Raw[i] == old(c.Raw[i])
+//@   ensures (base(c.Raw) == old(base(c.Raw)) && off(c.Raw) == old(off(c.Raw))) || fresh(base(c.Raw))
+//@   ensures forall j :: (j < old(off(c.Raw)) || j >= old(off(c.Raw)) + 8) ==> rawbyte(old(c.Raw), j) == old(rawbyte(c.Raw, j))
+//@   ensures old(len(c.Raw)) == 0 ==> forall j :: (j < old(off(c.Raw)) || j >= old(off(c.Raw)) + 4) ==> rawbyte(old(c.Raw), j) == old(rawbyte(c.Raw, j))
+//@   assigns c.Raw, bytes(c.Raw)
+
+//@      // Data may alias Raw's backing array (it does after Decode), but not the four header bytes
+//@ spec func dataClearOfHeader(c *ChannelData) bool = base(c.Data) != base(c.Raw) || len(c.Data) == 0 || off(c.Data) >= off(c.Raw) + 4 || off(c.Data) + len(c.Data) <= off(c.Raw)
+
+//@ func (*ChannelData).Encode
+//@   requires dataClearOfHeader(c) && len(c.Data) <= 1048576
+//@   ensures [C11:enc-len] len(c.Raw) == 4 + pad4(len(c.Data))
+//@   ensures [C11:enc-num] be16(c.Raw, 0) == int(c.Number)
+//@   ensures [C11:enc-lenf] len(c.Data) <= 65535 ==> be16(c.Raw, 2) == len(c.Data)
+//@   ensures [C05,C11:enc-data] forall i :: 0 <= i && i < len(c.Data) ==> c.Raw[4+i] == old(c.Data[i])
+//@   ensures [C11:enc-pad] forall i :: 4 + len(c.Data) <= i && i < len(c.Raw) ==> c.Raw[i] == 0
+//@   ensures [C11:enc-keep] sameSlice(c.Data, old(c.Data)) && c.Number == old(c.Number)
+//@   assigns c.Raw, bytes(c.Raw)
+//@   loop 0 invariant 0 <= iter && iter < bytesToAdd && bytesToAdd == pad4(4 + len(c.Data)) - (4 + len(c.Data))
+//@   loop 0 invariant len(c.Raw) == 4 + len(c.Data) + iter
+//@   loop 0 invariant base(c.Raw) == old(base(c.Raw)) || base(c.Raw) >= old(allocTop)
+//@   loop 0 invariant be16(c.Raw, 0) == int(c.Number) && be16(c.Raw, 2) == len(c.Data) % 65536
+//@   loop 0 invariant forall i :: 0 <= i && i < len(c.Data) ==> c.Raw[4+i] == old(c.Data[i])
+//@   loop 0 invariant forall i :: 4 + len(c.Data) <= i && i < len(c.Raw) ==> c.Raw[i] == 0
+//@   loop 0 decreases bytesToAdd - iter
+
+//@ func (*ChannelData).Decode
+//@   ensures [C11:dec-iff] (res == nil) == (len(c.Raw) >= 4 && validChan(be16(c.Raw, 0)) && be16(c.Raw, 2) <= len(c.Raw) - 4)
+//@   ensures [C05,C11:dec-val] res == nil ==> int(c.Number) == be16(c.Raw, 0) && c.Length == be16(c.Raw, 2) && sameSlice(c.Data, c.Raw[4:4+be16(c.Raw, 2)])
+//@   ensures [C11:dec-err] res == nil || res == io.ErrUnexpectedEOF || res == ErrInvalidChannelNumber || res == ErrBadChannelDataLength
+//@   ensures [C11:dec-raw] sameSlice(c.Raw, old(c.Raw))
+//@   assigns c.Number, c.Data, c.Length
+
+//@ func (*ChannelData).Reset
+//@   ensures len(c.Raw) == 0 && len(c.Data) == 0 && c.Length == 0
+//@   assigns c.Raw, c.Length, c.Data
+
+//@ lemma [C11:pad-props] (n): 0 <= n ==> pad4(n) >= n && pad4(n) < n + 4 && pad4(n) % 4 == 0
+
+//@      // STUNConn: s.buff holds exactly the bytes of the stream that were read but not yet returned as a frame
+//@ spec func bufInv(s *STUNConn) bool = forall i :: 0 <= i && i < len(s.buff) ==> s.buff[i] == inStream[inPos - len(s.buff) + i]
+
+//@ func (*STUNConn).ReadFrom
+//@   requires bufInv(s) && s.nextConn != nil
+//@   requires base(payload) != base(s.buff) || base(payload) == 0
+//@   ensures [C10:buf-inv] (err == nil || err != errInvalidTURNFrame) ==> bufInv(s)
+//@   ensures [C09,C10:consumes] err == nil ==> n > 0
+//@   ensures [C10:frame] err == nil ==> complete(extendLeft(s.buff, n)) && n == frameLen(extendLeft(s.buff, n))
+//@   ensures [C10:position] err == nil ==> inPos - len(s.buff) == old(inPos - len(s.buff)) + n
+//@   ensures [C10:payload] err == nil ==> forall i :: 0 <= i && i < n && i < len(payload) ==> payload[i] == inStream[old(inPos - len(s.buff)) + i]
+//@   ensures [C10:keep] err != nil ==> inPos - len(s.buff) == old(inPos - len(s.buff)) || err == errInvalidTURNFrame
+//@   ensures [C10:invalid] err == errInvalidTURNFrame ==> n == 0
+//@   at-call invoke net.Conn.Read assert [C10:read-only-when-incomplete] !complete(s.buff)
+//@   assigns s.buff, bytes(s.buff), bytes(payload), inPos
